@@ -190,6 +190,9 @@ def geniso_argv(opts, img, src):
     return a + ['-o', img, src]
 
 
+MTIME = 1000000000
+
+
 def materialise(tree, src):
     os.mkdir(src)
     for e in sorted(tree, key=lambda e: len(e['p'])):
@@ -201,6 +204,11 @@ def materialise(tree, src):
                 f.write(CONTENT[e['c']])
         else:
             os.symlink(text(e['t']), p)
+    # one timestamp on the whole tree, as after unpacking an archive or a checkout with normalised
+    # times: size and mtime then say nothing about whether two files are equal
+    for root, dirs, files in os.walk(src):
+        for n in files + dirs:
+            os.utime(os.path.join(root, n), (MTIME, MTIME), follow_symlinks=False)
 
 
 def walk_extracted(top):
